@@ -2,6 +2,7 @@
 from __future__ import annotations
 
 import ast
+import re
 
 from ..cfg import typestate, witness_path
 from ..core import INCONCLUSIVE, OK, VIOLATION, Ctx, canon, is_self_attr, local_defs
@@ -39,7 +40,23 @@ def _mentions_seed(e: ast.AST) -> bool:
             return True
         if isinstance(x, ast.Subscript) and isinstance(x.slice, ast.Constant) and x.slice.value == "random_seed":
             return True
+        if isinstance(x, ast.Call) and isinstance(x.func, ast.Attribute) and x.func.attr == "get" and x.args and isinstance(x.args[0], ast.Constant) and x.args[0].value == "random_seed":
+            return True
     return False
+
+
+def _bound_to_seed(f, e: ast.AST) -> bool | None:
+    """a local name: True when every binding of it in f (assignment or walrus) reads the configured seed, None when it has
+    bindings this cannot read"""
+    if not isinstance(e, ast.Name):
+        return False
+    vals = [y.value for y in ast.walk(f.node) if isinstance(y, ast.NamedExpr) and isinstance(y.target, ast.Name) and y.target.id == e.id]
+    vals += [y.value for y in ast.walk(f.node) if isinstance(y, ast.Assign) and any(isinstance(t, ast.Name) and t.id == e.id for t in y.targets)]
+    if not vals:
+        return False
+    if all(_mentions_seed(v) for v in vals):
+        return True
+    return None
 
 
 def _tainted_nondeterministic(ctx, f, e: ast.AST) -> str | None:
@@ -200,6 +217,9 @@ def _opts_seed_ok(ctx, f, name: str, _depth: int = 0):
         return False, "whose `randn` option is not numpy's global randn: CMA-ES samples from its own unseeded stream"
     for key in ("seed", "randn"):
         g = guards.get(key, [])
+        truthy = [t for t in g if re.fullmatch(r"[A-Za-z_][A-Za-z_0-9.]*random_seed", t)]
+        if truthy:
+            return False, f"whose `{key}` option is set only when `{truthy[0]}` is TRUTHY: the configured seed 0 counts as no seed and CMA-ES seeds itself from the clock"
         if any(not ("random_seed" in t and ("is not None" in t or t.endswith("random_seed"))) for t in g):
             return False, f"whose `{key}` option is set only under `{g}`"
     return True, ""
@@ -250,7 +270,7 @@ def r14_3(ctx: Ctx):
         return [(present, py, np_)]
 
     def edge_fn(n, lab, s):
-        if n.kind == "cond" and lab in (True, False) and "random_seed" in n.label:
+        if n.kind == "cond" and lab in (True, False) and ("random_seed" in n.label or any(isinstance(x, ast.Name) and _bound_to_seed(f, x) is True for x in ast.walk(n.ast))):
             e = n.ast
             if isinstance(e, ast.Compare) and len(e.ops) == 1:
                 if isinstance(e.ops[0], (ast.In, ast.NotIn)):
@@ -268,6 +288,13 @@ def r14_3(ctx: Ctx):
             obs.append(ctx.ob("R14.3", f, f.node, status=VIOLATION, detail=f"DemeTree.__init__ never seeds the {kind} stream ({'random.seed' if kind == 'py-global' else 'numpy.random.seed'} missing): draws on it depend on the prior state of the process", construct=f"seed:{kind}"))
         for c in calls:
             ok = len(c.args) == 1 and _mentions_seed(c.args[0]) and not _tainted_nondeterministic(ctx, f, c.args[0])
+            if not ok and len(c.args) == 1 and not _tainted_nondeterministic(ctx, f, c.args[0]):
+                b_ = _bound_to_seed(f, c.args[0])
+                if b_ is True:
+                    ok = True
+                elif b_ is None:
+                    obs.append(ctx.ob("R14.3", f, c, status=INCONCLUSIVE, detail=f"`{norm(c)}`: cannot tell whether the local it is seeded with holds the configured random_seed"))
+                    continue
             obs.append(ctx.ob("R14.3", f, c, status=OK if ok else VIOLATION, detail=f"{kind} seeded with the configured random_seed" if ok else f"`{norm(c)}` does not seed with the configured random_seed"))
     seen = set()
     for n, s, msg in viol:
